@@ -6,7 +6,7 @@ ALL = ["C%02d" % i for i in range(1, 21)]
 # id -> (technique, level text, level note, design ref)
 CHECKS = {
  "C01": ("invariant monitor on syntax::parse (tokens tile the input) over exhaustive small-scope, mutated and corpus inputs",
-         "Exploration: every sequence of <=3 (thorough <=4) lexemes of a 109-lexeme alphabet covering every token class, valid and invalid, glued and space-joined, is parsed and the tree walked; plus stacked random mutations of real and hand-written programs, disabled preprocessor regions, and prefixes/windows of the 39-file LLVM corpus. Held means: no input among those observed had a gap, overlap, wrong slice or lost byte.",
+         "Exploration: every sequence of <=3 (thorough <=4) lexemes of a 109-lexeme alphabet covering every token class, valid and invalid, glued and space-joined, is parsed and the tree walked; plus stacked random mutations of real and hand-written programs, disabled preprocessor regions, and prefixes/windows of the 39-file LLVM corpus. Held means: no input among those observed had a gap, overlap, wrong slice or lost byte, and every parse ended within its step budget (64 hook steps per byte) and produced a tree.",
          "rowan reports the tree that was built; inputs outside the explored space are unexamined", "5/C01"),
  "C02": ("panic / stack-overflow / hook step-budget monitor on syntax::parse over the C01 space plus depth-256 nesting towers and unterminated-construct splices",
          "Exploration: same input space as C01 plus 8 tower shapes at every depth 1..256 on the 2 MiB stack the server uses and unterminated constructs at every token boundary; non-progress is decided by the step-counter hook (no wall clock), linear work by steps <= K*(lexer tokens+1) with a fixed K, error well-formedness per SyntaxError.",
@@ -15,7 +15,7 @@ CHECKS = {
          "Exploration, exhaustive on its small scope: every string of length <=5 (thorough <=6) over a 9-character alphabet (ASCII, space, LF, CR, 2/3/4-byte characters, FF, U+2028) x every char-boundary offset x every (line, column<=width+1), plus random long texts and corpus files in LF and CRLF form. Each conversion is compared with refpos.rs and round-tripped.",
          "refpos.rs (written from the LSP specification) is trusted; positions beyond the last line or splitting a surrogate pair are not demanded", "5/C10"),
  "C15": ("differential monitor of syntax::parse against a reference conditional evaluator (refpp) over exhaustive directive sequences; ide-level leak monitor on random nestings",
-         "Exploration, exhaustive on its small scope: every sequence of <=6 (thorough <=8) items over 11 directive/marker items; token selection compared with refpp on the well-nested ones, an error demanded on the unterminated and nameless ones; plus random depth<=4 nestings analysed by ide with declarations and undefined references hidden in disabled regions.",
+         "Exploration, exhaustive on its small scope: every sequence of <=6 (thorough <=8) items over 11 directive/marker items; token selection compared with refpp on the well-nested ones, an error demanded on the unterminated and nameless ones; each also re-rendered with lexically bad disabled text, directive words in comments/strings, comments glued to directives and directive words in another letter case (which are not directives); plus random depth<=4 nestings analysed by ide with declarations and undefined references hidden in disabled regions.",
          "refpp is trusted; a macro name must be on the directive's line (LLVM semantics); error recognition is by message keywords (endif/EOF, macro name)", "5/C15"),
  "C16": ("reference-model monitor (graph reachability, link/diagnostic/outline expectations) + hook step budget over exhaustive small include graphs and random larger ones",
          "Exploration, exhaustive on its small scope: all edge sets incl. self-loops over <=3 files x all roots and all 65536 edge sets over 4 files; random 3-6 file graphs with sub-directories, INCLUDE_DIR search path, shadowed names, missing targets. Termination is decided by the hook step counter, the rest by comparison with a reference reachability model.",
